@@ -380,5 +380,62 @@ pub mod gs {
             assert(fid_ok(g, s[i]));
         }
     }
+
+    // --- record_finished vocabulary (shared by units sched and dirty)
+    /// what a finished command may change in the graph: new input-less files, and nothing the scheduler looks at
+    pub open spec fn graph_ext(g0: Graph, g1: Graph) -> bool {
+        &&& builds(g1).len() == builds(g0).len()
+        &&& forall|b: int| 0 <= b < builds(g0).len() ==> (#[trigger] builds(g1)[b]).ins == builds(g0)[b].ins
+                && builds(g1)[b].outs == builds(g0)[b].outs && builds(g1)[b].pool == builds(g0)[b].pool
+                && (builds(g1)[b].cmdline is None) == (builds(g0)[b].cmdline is None)
+        &&& files(g1).len() >= files(g0).len()
+        &&& forall|f: int| 0 <= f < files(g0).len() ==> (#[trigger] files(g1)[f]).input == files(g0)[f].input
+    }
+    /// g1 is g0 with new (input-less, dependent-less) files and the discovered list of step t replaced by deps
+    pub open spec fn disc_replaced(g0: Graph, g1: Graph, t: BuildId, deps: Seq<FileId>) -> bool {
+        &&& ix(t) < builds(g0).len() && builds(g1).len() == builds(g0).len()
+        &&& files_ext(files(g0), files(g1)) && files(g1).len() < 0x1_0000_0000
+        &&& forall|i: int| 0 <= i < builds(g0).len() && i != ix(t) ==> #[trigger] builds(g1)[i] == builds(g0)[i]
+        &&& builds(g1)[ix(t)].discovered_ins@ == deps && same_except_discovered(builds(g1)[ix(t)], builds(g0)[ix(t)])
+    }
+    pub proof fn lemma_disc_replaced(g0: Graph, g1: Graph, t: BuildId, deps: Seq<FileId>)
+        requires wf_graph(g0), disc_replaced(g0, g1, t, deps), ids_ok(g1, deps)
+        ensures wf_graph(g1), graph_ext(g0, g1)
+    {
+        assert forall|b: int| 0 <= b < builds(g1).len() implies wf_build(#[trigger] builds(g1)[b]) && build_ids_ok(g1, builds(g1)[b]) && no_dup(builds(g1)[b].outs.ids@) by {
+            assert(wf_build(builds(g0)[b]) && build_ids_ok(g0, builds(g0)[b]));
+            if b != ix(t) { assert(builds(g1)[b] == builds(g0)[b]); }
+            let x = builds(g1)[b]; let y = builds(g0)[b];
+            assert(x.ins == y.ins && x.outs == y.outs);
+            assert forall|j: int| 0 <= j < x.ins.ids@.len() implies fid_ok(g1, #[trigger] x.ins.ids@[j]) by { assert(fid_ok(g0, y.ins.ids@[j])); }
+            assert forall|j: int| 0 <= j < x.outs.ids@.len() implies fid_ok(g1, #[trigger] x.outs.ids@[j]) by { assert(fid_ok(g0, y.outs.ids@[j])); }
+            if b != ix(t) {
+                assert forall|j: int| 0 <= j < x.discovered_ins@.len() implies fid_ok(g1, #[trigger] x.discovered_ins@[j]) by { assert(fid_ok(g0, y.discovered_ins@[j])); }
+            }
+        }
+        assert forall|b: int, j: int| 0 <= b < builds(g1).len() && 0 <= j < builds(g1)[b].outs.ids@.len() implies
+            files(g1)[ix(#[trigger] builds(g1)[b].outs.ids@[j])].input == Some(BuildId(b as u32)) by {
+            if b != ix(t) { assert(builds(g1)[b] == builds(g0)[b]); }
+            assert(builds(g1)[b].outs == builds(g0)[b].outs);
+            assert(build_ids_ok(g0, builds(g0)[b]));
+            assert(fid_ok(g0, builds(g0)[b].outs.ids@[j]));
+            let _ = files(g1)[ix(builds(g1)[b].outs.ids@[j])];
+        }
+        assert forall|f: int| 0 <= f < files(g1).len() implies match (#[trigger] files(g1)[f]).input {
+                Some(p) => ix(p) < builds(g1).len() && builds(g1)[ix(p)].outs.ids@.contains(FileId(f as u32)), None => true } by {
+            if f < files(g0).len() {
+                assert(files(g1)[f] == files(g0)[f]);
+                match files(g0)[f].input { Some(p) => { if ix(p) != ix(t) { assert(builds(g1)[ix(p)] == builds(g0)[ix(p)]); } assert(builds(g1)[ix(p)].outs == builds(g0)[ix(p)].outs); } None => {} }
+            }
+        }
+        assert forall|f: int, k: int| 0 <= f < files(g1).len() && 0 <= k < files(g1)[f].dependents@.len() implies ix(#[trigger] files(g1)[f].dependents@[k]) < builds(g1).len() by {
+            if f < files(g0).len() { assert(files(g1)[f] == files(g0)[f]); }
+        }
+        assert forall|b: int| 0 <= b < builds(g0).len() implies (#[trigger] builds(g1)[b]).ins == builds(g0)[b].ins
+                && builds(g1)[b].outs == builds(g0)[b].outs && builds(g1)[b].pool == builds(g0)[b].pool
+                && (builds(g1)[b].cmdline is None) == (builds(g0)[b].cmdline is None) by {
+            if b != ix(t) { assert(builds(g1)[b] == builds(g0)[b]); }
+        }
+    }
     }
 }
